@@ -199,6 +199,7 @@ impl<'tcx> Cx<'tcx> {
                 obj(vec![
                     ("k", s("array")),
                     ("s", s(text)),
+                    ("len_name", s(format!("{}", len))),
                     ("elem", e),
                     ("len", match n {
                         Some(n) => J::UInt(n as u128),
@@ -498,6 +499,24 @@ impl<'tcx> Cx<'tcx> {
             }
         }
         v.push(("targs", J::Arr(targs)));
+        let mut gargs = vec![];
+        for a in args.iter() {
+            if let Some(t) = a.as_type() {
+                gargs.push(obj(vec![("k", s("ty")), ("ty", self.ty(t))]));
+            } else if let Some(c) = a.as_const() {
+                gargs.push(obj(vec![
+                    ("k", s("const")),
+                    ("val", match c.try_to_target_usize(tcx) {
+                        Some(n) => J::UInt(n as u128),
+                        None => J::Null,
+                    }),
+                    ("name", s(format!("{}", c))),
+                ]));
+            } else {
+                gargs.push(obj(vec![("k", s("lt"))]));
+            }
+        }
+        v.push(("gargs", J::Arr(gargs)));
         v.push(("local", J::Bool(did.is_local())));
         if let Some(name) = tcx.opt_item_name(did) {
             v.push(("name", s(name.as_str())));
@@ -595,6 +614,7 @@ impl<'tcx> Cx<'tcx> {
                         Some(n) => J::UInt(n as u128),
                         None => J::Null,
                     }),
+                    ("n_name", s(format!("{}", n))),
                 ])
             }
             Rvalue::Ref(_, bk, p) => {
@@ -834,6 +854,21 @@ fn impl_info<'tcx>(cx: &mut Cx<'tcx>, did: DefId) -> J {
     }
 }
 
+fn generics_json(tcx: TyCtxt<'_>, did: DefId) -> J {
+    let g = tcx.generics_of(did);
+    let mut v = vec![];
+    for i in 0..g.count() {
+        let p = g.param_at(i, tcx);
+        let kind = match p.kind {
+            ty::GenericParamDefKind::Lifetime => "lt",
+            ty::GenericParamDefKind::Type { .. } => "ty",
+            ty::GenericParamDefKind::Const { .. } => "const",
+        };
+        v.push(obj(vec![("name", s(p.name.as_str())), ("k", s(kind))]));
+    }
+    J::Arr(v)
+}
+
 fn dump(tcx: TyCtxt<'_>) {
     let mut cx = Cx { tcx, types: vec![], type_ix: HashMap::new(), adts: BTreeMap::new(), notes: vec![] };
     let mut consts: Vec<(String, J)> = vec![];
@@ -940,6 +975,7 @@ fn dump(tcx: TyCtxt<'_>) {
                 ("parent_fn", parent_fn),
                 ("span", cx.loc(tcx.def_span(did))),
                 ("mir", bj),
+                ("generics", generics_json(tcx, did)),
                 ("promoted", J::Arr(proms)),
             ]),
         ));
